@@ -186,6 +186,16 @@ pub fn finding_cases() -> Vec<(&'static str, &'static str, &'static str, Case)> 
         },
     ));
     v.push((
+        "json-filter-string-vs-object",
+        "json-filter-string-equals-text-of-value",
+        "j_r = $v with v = {} returns the row whose Json value is the string \"{}\": the filter compares extracted text",
+        {
+            let mut c = full(Ty::Json, Variant::Req, Val::J(JVal::Str("{}".into())), How::Param);
+            c.probes = vec![ProbeSrc::Fresh(Val::J(JVal::Obj(vec![])))];
+            c
+        },
+    ));
+    v.push((
         "json-selector-on-default",
         "json-selector-on-default-sql-syntax",
         "sel: j_d->$ on a Json field with a default is a SQL syntax error (Ifnull( is never closed)",
